@@ -130,6 +130,7 @@ class Model:
         packages: Tuple[str, ...] = ("pdfminer",),
         overrides: Optional[Dict[str, str]] = None,
         reuse: Optional["Model"] = None,
+        canonical_locals: bool = True,
     ) -> None:
         """overrides: relpath -> source text replacing the file on disk (seeded variants are analysed
         as source text; nothing is written or executed).  reuse: a model of the same root whose parsed
@@ -145,6 +146,14 @@ class Model:
             self._load_package(pkg)
         for m in list(self.modules.values()):
             self._index_module(m)
+        self.renamed_functions: List[str] = []
+        if canonical_locals:
+            from .reflocals import canonicalise
+
+            for q, f in self.funcs.items():
+                if f.parent is None and not isinstance(f.node, ast.Lambda):
+                    if canonicalise(q, f.node):
+                        self.renamed_functions.append(q)
         for c in self.classes.values():
             c.bases = [self.resolve_expr(c.module, b, c) or _dotted(b) or "?" for b in c.base_exprs]
 
